@@ -138,6 +138,18 @@ CHECKS = {
         technique="Coq proof (table interpreter, induction over the retry loop, finite forallb over the generated class list) + source-generated tables + differential correspondence",
         design="§4 C17",
     ),
+    "C18": dict(
+        text=("Coq 8.16.1: for ALL schedules of external actions (start / complete with any outcome / cancel / uncache / loop "
+              "iteration; unbounded tasks and locations; suspending or immediately answering requester) on an executable model of "
+              "the asyncio loop and of the (repaired) description cache, proved by induction with a state invariant and a "
+              "per-iteration two-state summary: single flight per location and epoch, shared outcome, values and failures cached "
+              "until uncache, no orphan marker, no stuck state, drain terminates within 2n+2 rounds; 12 theorems closed under the "
+              "global context. The model is tied to the real DescriptionCache on the real asyncio loop, stepped one _run_once() at "
+              "a time, with observations compared after every action (every depth-6 schedule over a 9-action alphabet in the "
+              "thorough tier, cancel/uncache injected at every position of 14 scenarios)."),
+        technique="Coq proof about an executable asyncio-kernel model (invariant + induction over schedules) + differential correspondence against the real event loop stepped per iteration",
+        design="§4 C18",
+    ),
     "C19": dict(
         text=("Coq theorems over an executable model of the LastChange path (content-handler fold over SAX events, "
               "error-swallowing parse, dlna_handle_notify_last_change, notify_changed_state_variables, DmrDevice._on_event with "
